@@ -9,15 +9,38 @@ from .. import common as cm
 
 PROP = 'C10'
 THEOREMS = [
+    # arrays: reshape/flatten are mutually inverse for every shape
     'C10.unflatten_flatten', 'C10.flatten_unflatten_shape',
-    'C10.valueUnit_model', 'C10.valueUnit_model_nested',
+    # uc.value_unit(uc.model(x)) = x: tree/JSON, nested view, XML text
+    'C10.valueUnit_model', 'C10.valueUnit_model_nested', 'C10.valueUnit_model_xml',
+    # physical value vs working units at write / read time
     'C10.physical_value_unit_independent', 'C10.physical_value_rescaled',
-    'C10.box_model_roundtrip', 'C10.box_model_roundtrip_exact',
-    'C10.atoms_model_roundtrip',
-    'C10.system_model_roundtrip', 'C10.system_model_two_units',
-    'C10.elastic_model_roundtrip', 'C10.elastic_model_roundtrip_exact', 'C10.elastic_model_two',
+    # Box
+    'C10.box_model_roundtrip', 'C10.box_model_roundtrip_exact', 'C10.box_model_roundtrip_xml',
+    'C10.box_setter_roundtrip',
+    # Atoms
+    'C10.atoms_model_roundtrip', 'C10.atoms_model_roundtrip_xml',
+    # System (scaled properties, symbols, masses, pbc), two configurations
+    'C10.system_model_roundtrip', 'C10.system_model_roundtrip_xml', 'C10.system_model_two_units',
+    # ElasticConstants
+    'C10.elastic_model_roundtrip', 'C10.elastic_model_roundtrip_exact', 'C10.elastic_model_roundtrip_xml',
+    'C10.elastic_model_two', 'C10.elastic_setter_roundtrip',
+    # the object invariants assumed above are established by the setters
+    'C10.cleanVects_idem', 'C10.cijSet_idem',
 ]
-PARTIAL = {}
+PARTIAL = {
+    'length-1 vector through XML text': "uc.value_unit alone reads a shape-(1,) array back from XML text as a "
+        "scalar (valueUnit_model_xml states the exact exception, xmlShape); Atoms/System restore it by broadcasting "
+        "(atoms_model_roundtrip_xml, system_model_roundtrip_xml are exact)",
+    'integer data written with a unit': 'come back as the same numbers in floating point (Data.castU): get_in_units '
+        'is a true division; stated in the theorems, not hidden',
+    'empty arrays': 'the value theorems assume a non-empty array (prodNat shape != 0): numpy gives an empty list the '
+        'float dtype, so empty int/str arrays change dtype class',
+    'prop_unit subsets': 'the Atoms/System theorems are about writing all properties in dictionary order (the default '
+        'of System.model / dump); a call that selects or reorders properties reproduces only those (not stated)',
+    'text codecs': "DataModelDict's JSON/XML codecs are not modelled character by character: JSON is taken as the "
+        'identity on the tree, XML as xmlNorm (one-element-list collapse); both observed on every correspondence case',
+}
 
 RULE = ('seeded systems (1-7 atoms, 1-3 types, tilted dyadic cells, non-zero origin, random pbc, missing/extra '
         'symbols, missing masses, int/float/str per-atom properties of rank 1-3), every unit choice per property '
@@ -667,9 +690,37 @@ def _brief(case):
     return c
 
 
+def correspond_nest(ctx, n):
+    """numpy reshape / flatten / tolist against the model's `unflatten` / `Nest.flatten` (the functions the
+    theorem unflatten_flatten is about), on every rank 0-4 and extents 0-4."""
+    import numpy as np
+    rng = ctx.rng
+    lines, reals = [], []
+    for _ in range(n):
+        rank = rng.choice([0, 1, 1, 2, 2, 3, 3, 4])
+        dims = [rng.choice([0, 1, 1, 2, 2, 3, 3, 4]) if rng.random() < 0.9 else 5 for _ in range(rank)]
+        size = int(np.prod(dims)) if dims else 1
+        data = [cm.dyadic(rng, -8, 8, 3) for _ in range(size)]
+        arr = np.array(data, dtype=float).reshape(dims)
+        lines.append(('nest %d %s %s' % (rank, ' '.join(map(str, dims)), ' '.join(cm.fr(x) for x in data))).replace('  ', ' ').strip())
+        reals.append((dims, arr.tolist(), arr.flatten().tolist()))
+    for line, (dims, nested, flat), reply in zip(lines, reals, ctx.driver.ask_many(lines)):
+        ctx.stats.case('nest', line, nontrivial=len(dims) >= 2)
+        if reply.startswith('err:'):
+            ctx.disagree('nest', f'model refused reshape to {dims}: {reply}', {'line': line})
+            continue
+        m = dict(parse_reply(reply))
+        out = []
+        same_tree(nested, m['nest'], (0.0, 0.0), 'reshape', None, out)
+        same_tree(flat, m['flat'], (0.0, 0.0), 'flatten', None, out)
+        if out:
+            ctx.disagree('nest', f'numpy reshape{tuple(dims)} vs model unflatten: ' + '; '.join(out[:3]), {'line': line})
+
+
 def correspond(ctx):
     rng = ctx.rng
     N = ctx.n(700, 12000)
+    correspond_nest(ctx, ctx.n(150, 2000))
     runs = []
     try:
         for case in _cases(rng, N):
@@ -890,14 +941,21 @@ def replay(ctx, payload):
 
 MANIFEST = {
     'text': 'Lean model of uc.model/uc.value_unit (rank 0 / 1 / >=2 with shape, unit key), of the DataModelDict tree '
-            '(ordered key->value, append/aslist, XML one-element-list collapse) and of the Box/Atoms/System/'
-            'ElasticConstants model writers and model= constructors; theorems: reshape(flatten)=id for every shape, '
-            'value_unit(model(x))=x for every non-zero factor, Box/Atoms/System/ElasticConstants round trips incl. '
-            "'scaled' properties (rel∘cart inverse, det != 0), symbols/masses padding, pbc; physical value independent "
-            'of the working units at write vs read time. Tie: differential correspondence of the real writers/readers '
-            'against the Lean driver over tree, JSON text and XML text under different uc.reset_units configurations.',
+            '(ordered key->value, append/aslist, XML one-element-list collapse xmlNorm) and of the Box/Atoms/System/'
+            'ElasticConstants model writers and model= constructors (scaled properties, default pos->angstrom, '
+            'symbols/masses padding, near-zero clean-up of the vects/Cij setters). Theorems (all inputs, any field): '
+            'reshape(flatten)=id and flatten(reshape)=id for every shape; value_unit(model(x))=x for every non-zero '
+            'factor, through the tree and through XML text (exact exception: a shape-(1,) vector is read as a scalar); '
+            'Box, Atoms, System (cell, origin, pbc, symbols, masses, every property incl. box-scaled ones via '
+            'rel_cart inverse, det != 0) and ElasticConstants round trips through tree/JSON and XML text; the object '
+            'invariants they assume are established by the setters (cleanVects_idem, cijSet_idem); the stored physical '
+            'value is independent of the working units at write vs read time, and under two configurations every '
+            'number comes back times the C09 dimension factor ratio (box lengths and box-scaled properties by the same '
+            'ratio). Tie: differential correspondence of the real writers/readers against the Lean driver over tree, '
+            'JSON text and XML text under different uc.reset_units configurations, numpy reshape vs the model; clause '
+            'oracle on the real code with unit factors evaluated independently of uc.parse.',
     'note': 'Trusted: Lean kernel + propext/Classical.choice/Quot.sound; DataModelDict/xmltodict/json codecs (observed, '
-            'not verified); uc.parse factors are parameters (C09); normalized_as is a parameter (C11); float rounding '
-            'bounded by 2e-15 (1e-10 for scaled data).',
+            'not verified: JSON = identity on the tree, XML = xmlNorm); uc.parse factors are parameters (C09); '
+            'normalized_as is a parameter (C11); float rounding bounded by 2e-15 (1e-10 for box-scaled data).',
     'technique': 'Lean 4 theorems over a hand-written executable model + differential correspondence + clause oracle',
 }
